@@ -16,7 +16,9 @@ TP1 == <<0, 1, 2, 3>>
 TP2 == <<0 - 25, 0, 7, 40>>
 \* not ascending: a time course / track keeps the order in which it was built, whatever the time stamps say
 TP3 == <<3, 1, 2, 0>>
-Patterns == {TP1, TP2, TP3}
+\* the same stamp twice in a row (a simulation continued with the same tracker records its start time again)
+TP4 == <<5, 5, 7, 7>>
+Patterns == {TP1, TP2, TP3, TP4}
 Patterns1 == {TP2}
 TwoPaths == {"a", "b"}
 OnePath == {"a"}
